@@ -4866,9 +4866,23 @@ impl<'a, const HAS_CR: bool> Parser<'a, HAS_CR> {
         content_indent: usize,
         chomping: ChompingIndicator,
     ) -> usize {
+        // The kernels judge only lines that follow a line break. The line at
+        // `self.pos` (the first after the header) is content by construction
+        // when the indentation was auto-detected, but under an explicit
+        // indentation indicator it can already be dedented (`k: |3\nc: after`):
+        // the scalar is empty then and ends right here.
+        let first = &self.input[self.pos..];
+        let first_indent = first.iter().take_while(|&&b| b == b' ').count();
+        let first_dedented = first_indent < content_indent
+            && matches!(first.get(first_indent), Some(b) if !matches!(b, b'\n' | b'\r'));
+
         // Use SIMD to quickly find where the block scalar ends
-        let block_end = simd::find_block_scalar_end(self.input, self.pos, content_indent)
-            .unwrap_or(self.input.len());
+        let block_end = if first_dedented {
+            self.pos
+        } else {
+            simd::find_block_scalar_end(self.input, self.pos, content_indent)
+                .unwrap_or(self.input.len())
+        };
 
         // Now we need to walk through the content to find:
         // 1. last_content_end - position after last non-empty line
